@@ -879,6 +879,46 @@ def _claims_sweep_post(ctx):
             ("nothing-created", z3.Implies(z3.Not(z3.Select(ent.exists, k)), z3.Not(z3.Select(cur.exists, k))))]
 
 
+def _retention_run(ctx):
+    """mark_message_processed(conn, m) followed by cleanup_old_processed_messages(conn, max_age_hours) on the same database."""
+    I = ctx.I
+    from pyvc.values import SFunc
+
+    conn = SQL.new_connection(I)
+    I.st.ghost["the_conn"] = conn
+    from pyvc.typesys import fresh_value
+    mid = fresh_value(I.st, I.typer, ("str",), "message_id", det=True)
+    hours = fresh_value(I.st, I.typer, ("int",), "max_age_hours", det=True)
+    I.st.assume(hours.t >= 0)
+    ctx.args["message_id"], ctx.args["max_age_hours"] = mid, hours
+    m, _c, node = I.index.func(P + "operations:mark_message_processed")
+    I.call_func(SFunc(node, m, None, None, None, node.name), [conn, mid], {})
+    m2, _c2, node2 = I.index.func(P + "operations:cleanup_old_processed_messages")
+    return I.call_func(SFunc(node2, m2, None, None, None, node2.name), [conn, hours], {})
+
+
+def _retention_post(ctx):
+    """C09/retention: the sweep that follows the real mark_message_processed deletes the message's record only if the
+    record's time is chronologically before the cutoff the sweep was given (now - max_age_hours): a record younger than the
+    retention period survives, whatever text format either side is written in."""
+    I = ctx.I
+    if ctx.exc is not None:
+        return [("no-exception", FALSE)]
+    cur = cur_table(ctx, "processed_messages")
+    key = ctx.args["message_id"].t
+    dels = [e for e in ctx.st.effects if e.kind == "sql" and e.data["kind"] == "delete" and e.data["table"] == "processed_messages"]
+    goals = [("one-sweep-statement", z3.BoolVal(len(dels) == 1))]
+    if len(dels) == 1:
+        cutoff, _n = SQL.SqlEval(I, dels[0].data["params"]).param("cutoff")
+        nows = ctx.st.ghost.get("py_nows", [])
+        goals.append(("the-clock-is-read-once", z3.BoolVal(len(nows) == 1)))
+        if len(nows) == 1:
+            goals.append(("the-cutoff-is-the-retention-period-before-now", cutoff == nows[0] - ctx.args["max_age_hours"].t * 3600000))
+        goals.append(("a-record-is-deleted-only-when-older-than-the-cutoff",
+                      z3.Implies(z3.Not(z3.Select(cur.exists, key)), z3.Select(cur.cols["processed_at"], key) < cutoff)))
+    return goals
+
+
 def ops_units():
     reg = queue_registry()
     OP = P + "operations:"
@@ -898,6 +938,10 @@ def ops_units():
              obligations=[Obl("C17/cancel-flag", _cancel_exec_post, when="any"), Obl("C01/RES/cancel-flag-idempotent", _cancel_exec_post, when="any")], **common),
         Unit(prop="*", name="L1/operations.cleanup_completed_stage_claims", func=OP + "cleanup_completed_stage_claims",
              params=[("conn", conn_param)], obligations=[Obl("C11/sweep", _claims_sweep_post, when="any")], **common),
+        Unit(prop="*", name="L1/operations.mark+cleanup_old_processed_messages", func=OP + "cleanup_old_processed_messages", params=[],
+             obligations=[Obl("C09/retention", _retention_post, when="any", scenario="d15_retention_deletes_fresh_marks.py"),
+                          Obl("C02/retention", _retention_post, when="any", scenario="d15_retention_deletes_fresh_marks.py")],
+             run=_retention_run, **common),
     ]
 
 
@@ -1765,3 +1809,52 @@ def task_units():
 
 
 ALL.append(task_units)
+
+
+# ---- the store's stage look-ups hand back exactly what the query returned (C03, C16: an empty upstream list means "no dependencies")
+def lookup_units():
+    QM = P + "store.queries:SqliteQueriesMixin."
+    out = []
+    for meth, qfunc in (("get_upstream_stages", "get_upstream_stages"), ("get_downstream_stages", "get_downstream_stages"),
+                        ("get_synthetic_stages", "get_synthetic_stages")):
+        reg = queue_registry()
+
+        def query(I, a, k, _q=qfunc):
+            """assumed contract of persistence.sqlite.queries.<q> (dynamic SQL text, not under contract): some list of stages,
+            or any exception of the database layer (sqlite3.OperationalError: locked, disk I/O, ...)."""
+            from pyvc.typesys import fresh_value
+            if I.st.choose("query_fails"):
+                I.st.emit("query_failed", q=_q)
+                I.raise_builtin("OperationalError", "database is locked")
+            lst = fresh_value(I.st, I.typer, ("list", ("obj", "StageExecution")), "query_result", det=True)
+            I.st.emit("query_result", q=_q, obj=lst, args=list(a))
+            return lst
+
+        reg.contracts[P + "queries:" + qfunc] = query
+        reg.contracts[P + "queries.stages:" + qfunc] = query
+
+        def setup(ctx):
+            ctx.I.st.ghost["the_conn"] = SQL.new_connection(ctx.I)
+
+        def post(ctx, _m=meth):
+            failed = [e for e in ctx.st.effects if e.kind == "query_failed"]
+            got = [e for e in ctx.st.effects if e.kind == "query_result"]
+            goals = [("the-query-is-asked-once", z3.BoolVal(len(failed) + len(got) == 1))]
+            if failed:
+                goals.append(("a-failed-query-is-not-answered-with-a-list", z3.BoolVal(ctx.exc is not None)))
+            if got:
+                same = ctx.exc is None and hasattr(ctx.result, "lid") and ctx.result.lid == got[0].data["obj"].lid
+                goals.append(("returns-the-query-result-itself", z3.BoolVal(bool(same))))
+                a = got[0].data["args"]
+                goals.append(("asks-for-the-given-execution-and-stage", z3.And(ctx.I.ops.eq(a[1], ctx.args[list(ctx.args)[0]]), ctx.I.ops.eq(a[2], ctx.args[list(ctx.args)[1]]))))
+            return goals
+
+        second = "parent_stage_id" if meth == "get_synthetic_stages" else "stage_ref_id"
+        out.append(Unit(prop="*", name=f"L1/SqliteQueriesMixin.{meth}", func=QM + meth, params=[("execution_id", ("str",)), (second, ("str",))],
+                        self_type=("obj", "SqliteWorkflowStore"), setup=setup, names=STATUS_NAMES, registry=reg, replayable=False,
+                        obligations=[Obl(f"C03/lookup/{meth}", post, when="any"), Obl(f"C16/lookup/{meth}", post, when="any"),
+                                     Obl(f"C05/lookup/{meth}", post, when="any")]))
+    return out
+
+
+ALL.append(lookup_units)
